@@ -76,8 +76,11 @@ class Prop(PropBase):
         for _ in range(500 if quick else 20000):
             c = float(rng.choice([0, 1, 3, -3, 9876543210, rng.randint(-10**6, 10**6), rng.randint(-2**52, 2**52)]))
             f = rng.choice([0.0, 0.2, -0.2, 0.0123456789, 0.05, -0.05, 0.45, -0.5, 0.96, 0.25, 0.249999999, 1e-17, 0.999e-3,
-                            rng.uniform(-0.5, 0.5), rng.uniform(-0.5, 0.5)])
-            yield {"op": "fmt", "c": hx(c), "f": hx(f), "p": rng.choice([None, 0, 1, 2, 3, 5, 9, 12, 15, 18, 20, rng.randint(0, 20)]),
+                            rng.uniform(-0.5, 0.5), rng.uniform(-0.5, 0.5),
+                            # short decimal fractions (the default rendering special-cases 1-2 digit strings)
+                            rng.randint(-5, 5) / 10, rng.randint(-50, 50) / 100, rng.randint(-50, 50) / 100, rng.randint(-500, 500) / 1000,
+                            rng.randint(-24, 24) / 100, rng.choice([1, -1]) * 10.0 ** -rng.randint(3, 20)])
+            yield {"op": "fmt", "c": hx(c), "f": hx(f), "p": rng.choice([None, None, None, 0, 1, 2, 3, 5, 9, 12, 15, 18, 20, rng.randint(0, 20)]),
                    "imag": rng.random() < 0.1}
         for _ in range(300 if quick else 12000):
             n = rng.choice([2, 3, 5, 8])
